@@ -184,6 +184,11 @@ class Server(object):
                     return
                 else:
                     self.logger.info("%s authenticated successfully", addrinfo)
+                    if sock2 is not sock:
+                        # the authenticator replaced the socket (e.g. TLS): close() must reach the one being served
+                        self.clients.discard(sock)
+                        self.clients.add(sock2)
+                        sock = sock2
             else:
                 credentials = None
                 sock2 = sock
